@@ -194,6 +194,207 @@ func lastLines(s string, n int) string {
 	return strings.Join(ls, "\n")
 }
 
+const indexReplaySrc = `package evaluator
+
+import (
+	"fmt"
+	"os"
+	"strconv"
+	"testing"
+
+	"github.com/Syuparn/pangaea/object"
+)
+
+func gocvBound(name string) object.PanObject {
+	v := os.Getenv(name)
+	if v == "" || v == "nil" {
+		return object.BuiltInNil
+	}
+	i, _ := strconv.ParseInt(v, 10, 64)
+	return object.NewPanInt(i)
+}
+
+// reference semantics (the property statement): CPython slice indices
+func gocvRef(n int64, s, e, st object.PanObject) ([]int64, bool) {
+	step := int64(1)
+	if i, ok := st.(*object.PanInt); ok {
+		step = i.Value
+	}
+	if step == 0 {
+		return nil, false
+	}
+	clamp := func(i int64) int64 {
+		if i < 0 {
+			if i+n < 0 {
+				if step < 0 {
+					return -1
+				}
+				return 0
+			}
+			return i + n
+		}
+		if i >= n {
+			if step < 0 {
+				return n - 1
+			}
+			return n
+		}
+		return i
+	}
+	var start, stop int64
+	if step > 0 {
+		start, stop = 0, n
+	} else {
+		start, stop = n-1, -1
+	}
+	if i, ok := s.(*object.PanInt); ok {
+		start = clamp(i.Value)
+	}
+	if i, ok := e.(*object.PanInt); ok {
+		stop = clamp(i.Value)
+	}
+	var out []int64
+	if step > 0 {
+		for i := start; i < stop; i += step {
+			out = append(out, i)
+			if i > n {
+				break
+			}
+		}
+	} else {
+		for i := start; i > stop; i += step {
+			out = append(out, i)
+			if i < -1 {
+				break
+			}
+		}
+	}
+	return out, true
+}
+
+func TestGocvReplayIndex(t *testing.T) {
+	n, _ := strconv.ParseInt(os.Getenv("GOCV_N"), 10, 64)
+	if n < 0 || n > 4096 {
+		fmt.Println("REPLAY: skipped (sequence too long to build)")
+		return
+	}
+	elems := []object.PanObject{}
+	for i := int64(0); i < n; i++ {
+		elems = append(elems, object.NewPanInt(i+100))
+	}
+	arr := object.NewPanArr(elems...)
+	if os.Getenv("GOCV_KIND") == "index" {
+		idx, _ := strconv.ParseInt(os.Getenv("GOCV_I"), 10, 64)
+		var got object.PanObject
+		func() {
+			defer func() {
+				if r := recover(); r != nil {
+					fmt.Printf("REPLAY: violated (panic: %v)\n", r)
+				}
+			}()
+			got = arrIndex(idx, arr)
+		}()
+		if got == nil {
+			return
+		}
+		var want object.PanObject = object.BuiltInNil
+		if idx >= 0 && idx < n {
+			want = elems[idx]
+		} else if idx < 0 && idx >= -n {
+			want = elems[idx+n]
+		}
+		if got != want {
+			fmt.Printf("REPLAY: violated (index %d of length %d gave %s)\n", idx, n, got.Inspect())
+		} else {
+			fmt.Println("REPLAY: holds")
+		}
+		return
+	}
+	s, e, st := gocvBound("GOCV_S"), gocvBound("GOCV_E"), gocvBound("GOCV_STEP")
+	r := object.NewPanRange(s, e, st)
+	want, ok := gocvRef(n, s, e, st)
+	var got object.PanObject
+	func() {
+		defer func() {
+			if r := recover(); r != nil {
+				fmt.Printf("REPLAY: violated (panic: %v)\n", r)
+			}
+		}()
+		got = arrRange(r, arr)
+	}()
+	if got == nil {
+		return
+	}
+	if !ok {
+		if e, isErr := got.(*object.PanErr); isErr && e.ErrKind == object.ValueErr {
+			fmt.Println("REPLAY: holds")
+		} else {
+			fmt.Printf("REPLAY: violated (zero step gave %s)\n", got.Inspect())
+		}
+		return
+	}
+	ga, isArr := got.(*object.PanArr)
+	if !isArr {
+		fmt.Printf("REPLAY: violated (%s)\n", got.Inspect())
+		return
+	}
+	same := len(ga.Elems) == len(want)
+	if same {
+		for k, p := range want {
+			if ga.Elems[k] != elems[p] {
+				same = false
+			}
+		}
+	}
+	if !same {
+		fmt.Printf("REPLAY: violated (seq of length %d [%s:%s:%s] gave %s, expected positions %v)\n", n, s.Inspect(), e.Inspect(), st.Inspect(), got.Inspect(), want)
+		return
+	}
+	fmt.Println("REPLAY: holds")
+}
+`
+
 func replayIndex(w *World, o *Obligation, dir string) (string, map[string]string) {
-	return "no-decoder", nil
+	m := o.Result.Model
+	get := func(k string) (string, bool) { return modelIntOf(m, k) }
+	decoded := map[string]string{}
+	env := []string{}
+	switch {
+	case strings.HasSuffix(o.Fn, ".arrIndex") || strings.HasSuffix(o.Fn, ".strIndex"):
+		n, ok1 := get("t.n")
+		i, ok2 := get("t.index")
+		if !ok1 || !ok2 {
+			return "no-decoder", nil
+		}
+		decoded["program"] = fmt.Sprintf("seq of length %s indexed by [%s]", n, i)
+		env = []string{"GOCV_KIND=index", "GOCV_N=" + n, "GOCV_I=" + i}
+	case strings.HasSuffix(o.Fn, ".fixRange"):
+		n, ok := get("t.length")
+		if !ok {
+			return "no-decoder", nil
+		}
+		st, _ := get("t.step")
+		s, e := "nil", "nil"
+		if m["t.hasS"] == "true" {
+			s, _ = get("t.s")
+		}
+		if m["t.hasE"] == "true" {
+			e, _ = get("t.e")
+		}
+		decoded["program"] = fmt.Sprintf("seq of length %s sliced by [%s:%s:%s]", n, s, e, st)
+		env = []string{"GOCV_KIND=range", "GOCV_N=" + n, "GOCV_S=" + s, "GOCV_E=" + e, "GOCV_STEP=" + st}
+	default:
+		return "no-decoder", nil
+	}
+	out, _ := goTestOverlay(w.RepoDir, "evaluator", "zz_gocv_replay_test.go", indexReplaySrc, "TestGocvReplayIndex", env)
+	decoded["replay_output"] = truncate(lastLines(out, 6), 800)
+	switch {
+	case strings.Contains(out, "REPLAY: violated"):
+		return "reproduced", decoded
+	case strings.Contains(out, "REPLAY: holds"):
+		return "not-reproduced", decoded
+	case strings.Contains(out, "REPLAY: skipped"):
+		return "not-replayable", decoded
+	}
+	return "replay-error", decoded
 }
